@@ -234,16 +234,17 @@ structure SpecB (t : Tables) (tol : Tol) (x : Int) : Prop where
              t.bursts.find? (fun q => q.1 == p.1) = some p ∧
              (x > 0 ∨ lastHalf tol t.bursts x p = some [] ∨ lastHalf tol t.bursts x p = some [p.2])
   dist   : distinctSyms t.bursts = true
+  gen    : streamEnc t.bursts = .general
 
 theorem wfBc_spec {t : Tables} {tol : Tol} (h : wfBc t tol = true) : ∃ x, SpecB t tol x := by
   unfold wfBc at h
   rw [Bool.and_eq_true] at h
-  obtain ⟨_, h⟩ := h
+  obtain ⟨hsup, h⟩ := h
   split at h
   · rename_i x hlo
     simp only [Bool.and_eq_true, decide_eq_true_eq, List.all_eq_true, beq_iff_eq, Bool.or_eq_true] at h
     obtain ⟨⟨⟨⟨⟨h1, h2⟩, h3⟩, h3a⟩, h4⟩, h5⟩ := h
-    refine ⟨x, hlo, h1, h2, h3, h3a, ?_, h5⟩
+    refine ⟨x, hlo, h1, h2, h3, h3a, ?_, h5, supported_general hsup⟩
     intro p hp
     obtain ⟨⟨⟨⟨⟨a1, a2⟩, a3⟩, a4⟩, a5⟩, a6⟩ := h4 p hp
     refine ⟨a1, a2, a3, a4, a5, ?_⟩
@@ -370,7 +371,8 @@ theorem parse_frameB (t : Tables) (tol : Tol) (htol : tol.ok) (x : Int) (hS : Sp
   obtain ⟨vals, extra, hcls, hptb, hcat⟩ := hvals
   -- assemble
   rw [hframe]
-  unfold parse parseWith
+  rw [parse_general hS.gen]
+  unfold parseWith
   rw [hperiod]
   simp only [bind, Except.bind, hdl, hin, hS.lo, List.length_cons, List.length_nil, hout, hcls, hptb, pure, Except.pure]
   have hcl0 : (t.leadIn ++ vals ++ extra).map some ++ [cl] = (t.leadIn ++ syms' ++ [m, s]).map some ++ [cl] := by
